@@ -992,3 +992,62 @@ Lemma kind_abs_dslash_refuted :       (* D14  "/..//." -> "//", read back as an 
     /\ reads_authority R = false /\ reads_authority (normalize 63 R) = true
     /\ parse (to_text (normalize 63 R)) = POk v /\ is_host_set R = false /\ is_host_set v = true.
 Proof. do 2 eexists. split; [vm_compute; reflexivity|]. repeat split. Qed.
+
+(* ================================================================ 9. the two carve-outs are exact on a small scope *)
+(* every relative-path reference with a path of at most four segments over {"", ".", "..", "a", "b:c"}, and
+   "./b:c/../.." followed by at most two more: a reference in one of the two shapes fails to commute against
+   one of three bases (one of them deep enough for every ".." to matter), every other one commutes
+   against all three *)
+Definition text_eq_dec : forall a b : text, {a = b} + {a <> b} := list_eq_dec N.eq_dec.
+Definition otext_eq_dec : forall a b : option text, {a = b} + {a <> b}.
+Proof. decide equality. apply text_eq_dec. Defined.
+Definition comps_eqb (u v : uri) : bool :=
+  (if otext_eq_dec (scheme u) (scheme v) then true else false)
+  && (if otext_eq_dec (userInfo u) (userInfo v) then true else false)
+  && (if otext_eq_dec (hostText u) (hostText v) then true else false)
+  && (if otext_eq_dec (ip4 u) (ip4 v) then true else false)
+  && (if otext_eq_dec (ip6 u) (ip6 v) then true else false)
+  && (if otext_eq_dec (ipFuture u) (ipFuture v) then true else false)
+  && (if otext_eq_dec (portText u) (portText v) then true else false)
+  && (if list_eq_dec text_eq_dec (pathSegs u) (pathSegs v) then true else false)
+  && Bool.eqb (absolutePath u) (absolutePath v)
+  && (if otext_eq_dec (query u) (query v) then true else false)
+  && (if otext_eq_dec (fragment u) (fragment v) then true else false).
+
+Lemma comps_eqb_spec u v : comps_eqb u v = true <-> components u = components v.
+Proof.
+  unfold comps_eqb, components. split.
+  - intros H. repeat (apply andb_prop in H; destruct H as [H ?]).
+    repeat match goal with
+           | X : (if ?d then true else false) = true |- _ => destruct d; [clear X|discriminate X]
+           | X : Bool.eqb _ _ = true |- _ => apply eqb_prop in X
+           end.
+    congruence.
+  - intros H. injection H as H1 H2 H3 H4 H5 H6 H7 H8 H9 H10 H11.
+    rewrite H1, H2, H3, H4, H5, H6, H7, H8, H9, H10, H11. rewrite eqb_reflx.
+    repeat match goal with |- context [if ?d then true else false] => destruct d; [|congruence] end.
+    reflexivity.
+Qed.
+
+Definition commutes_b (R B : uri) : bool :=
+  comps_eqb (normalize 63 (snd (add_base false (normalize 63 R) B))) (normalize 63 (snd (add_base false R B))).
+
+Definition scope_alpha : list text := [[]; [46]; [46; 46]; [97]; [98; 58; 99]].
+Fixpoint scope_paths (n : nat) : list (list text) :=
+  match n with
+  | O => [[]]
+  | S k => [] :: flat_map (fun l => map (fun x => x :: l) scope_alpha) (scope_paths k)
+  end.
+Definition scope_ref (p : list text) : uri := mkUri None None None None None None None p None None false false.
+Definition scope_refs : list uri :=
+  filter (fun u => wf u && negb (lone_empty_hostless u))
+    (map scope_ref (scope_paths 4 ++ map (fun t => [[46]; [98; 58; 99]; [46; 46]; [46; 46]] ++ t) (scope_paths 2))).
+Definition scope_bases : list uri := [uri_of "s://h/x/y/z/w"; uri_of "s:/a/b:c"; uri_of "s:x/y/z"].
+
+Lemma carveouts_exact_small_scope :
+  forallb (fun R => if kf_cancels R || kf_dot_eaten R
+                    then existsb (fun B => negb (commutes_b R B)) scope_bases
+                    else forallb (fun B => commutes_b R B) scope_bases) scope_refs = true
+  /\ existsb kf_cancels scope_refs = true /\ existsb kf_dot_eaten scope_refs = true
+  /\ (600 <=? N.of_nat (length scope_refs)) = true.
+Proof. vm_compute. repeat split. Qed.
